@@ -165,10 +165,14 @@ class GaussianMixture:
             means[k] = X[np.searchsorted(cumsum, r)]
 
         # Initialize responsibilities and compute initial parameters
-        responsibilities = np.zeros((n_samples, self.n_components))
+        sq_distances = np.zeros((n_samples, self.n_components))
         for k in range(self.n_components):
-            distances = np.sum((X - means[k]) ** 2, axis=1)
-            responsibilities[:, k] = np.exp(-0.5 * distances)
+            sq_distances[:, k] = np.sum((X - means[k]) ** 2, axis=1)
+        # Shift by the distance to the nearest centre before exponentiating:
+        # the ratios are unchanged, but points far from every centre no longer
+        # underflow to 0/0 = NaN (data with a spread of more than ~40 units).
+        sq_distances -= np.min(sq_distances, axis=1, keepdims=True)
+        responsibilities = np.exp(-0.5 * sq_distances)
         responsibilities /= np.sum(responsibilities, axis=1, keepdims=True)
 
         # Compute initial weights and covariances
@@ -697,7 +701,12 @@ class HierarchicalGaussianMixture:
 
             log_probabilities[:, k] = log_prob + np.log(weight + 1e-10)
 
-        from scipy.special import logsumexp
-
-        log_prob_norm = logsumexp(log_probabilities, axis=1, keepdims=True)
-        return np.exp(log_probabilities - log_prob_norm)
+        # Softmax with the row maximum removed first: for query points far from
+        # every cluster the log-probabilities are huge and nearly equal, and
+        # exp(logp - logsumexp(logp)) loses the log(K) term to rounding (rows
+        # summing to K instead of 1).
+        log_probabilities = log_probabilities - np.max(
+            log_probabilities, axis=1, keepdims=True
+        )
+        probabilities = np.exp(log_probabilities)
+        return probabilities / np.sum(probabilities, axis=1, keepdims=True)
